@@ -141,6 +141,47 @@ def slice_2d(ctx, n, m, lkind, order, sk, ek, step, other, dim):
     return ctx.done(same(ctx, r[1], ref.select(sel)), ctx.observe(r[1]))
 
 
+def slice_nd(ctx, shape, kinds, step=None, order='inc', position=False):
+    """N-d array with unequal sizes: a (label or position) slice in one dimension next to scalars / lists / full slices"""
+    nd = len(shape)
+    dims = ['x', 'y', 'z', 'w'][:nd]
+    lks = ['i'] * nd
+    # the other dimensions are kept increasing here (their lookup in any order is C01's business): one path for the argsort
+    labels = [ctx.labels('i', n, 'l%s_' % d, order=((order if k == 'slice' else 'inc') if n >= 2 else None)) for d, n, k in zip(dims, shape, kinds)]
+    ncell = 1
+    for n in shape:
+        ncell *= n
+    cells = ctx.cells('f', ncell, 'v')
+    a = ctx.mk(dims, labels, cells, lkinds=lks)
+    ref = Ref(dims, labels, cells)
+    idx, sel = [], []
+    for d, n, k, l in zip(dims, shape, kinds, labels):
+        if k == 'full':
+            idx.append(slice(None)); sel.append(list(range(n)))
+        elif k == 'scalar':
+            i = ctx.choice('c%s' % d, n)
+            idx.append(i if position else l[i]); sel.append(i)
+        elif k == 'list':
+            i0, i1 = ctx.choice('c%s0' % d, n), ctx.choice('c%s1' % d, n)
+            idx.append([i0, i1] if position else [l[i0], l[i1]]); sel.append([i0, i1])
+        elif k == 'slice' and position:
+            i0, i1 = ctx.choice('s%s0' % d, n + 1), ctx.choice('s%s1' % d, n + 1)
+            sl = slice(i0 if i0 < n else None, i1 if i1 < n else None, step)
+            idx.append(sl); sel.append(list(range(n))[sl])
+        else:
+            start = ctx.label('i', 'start%s' % d)
+            stop = ctx.label('i', 'stop%s' % d) if step != 'open' else None
+            st = None if step == 'open' else step
+            idx.append(slice(start, stop, st))
+            inc = True if n < 2 else bool(l[0] < l[1])
+            sel.append(box_positions(ctx, l, start, stop, st, inc))
+    tup = tuple(idx)
+    r = ctx.call(lambda: (a.ix[tup] if position else a[tup]))
+    if r[0] != 'ok':
+        return ctx.done(False, r[1])
+    return ctx.done(same(ctx, r[1], ref.select(sel)), ctx.observe(r[1]))
+
+
 def pos_slices(ctx, n, m, lkind, via):
     """position slices (.ix / iloc / take(indexing='position')): exactly python list slicing"""
     ls = ctx.labels(lkind, n, 'l')
@@ -214,6 +255,17 @@ def templates():
                     tier = 'quick' if step in (None, -1) else 'thorough'
                     add('2d-dim%d-%s-%s-%s-step%s' % (dim, other, lkind, order, step), 'slice_2d', tier, cost=3.0,
                         n=3, m=2, lkind=lkind, order=order, sk='sym', ek='sym', step=step, other=other, dim=dim)
+    # 3-D / 4-D arrays with unequal sizes: slice next to scalars and lists in every arrangement
+    import itertools
+    for kinds in set(itertools.permutations(['slice', 'list', 'full'])) | set(itertools.permutations(['slice', 'list', 'scalar'])) | set(itertools.permutations(['slice', 'scalar', 'full'])):
+        for step in (None, -1, 'open'):
+            for position in (False, True):
+                if position and step == 'open':
+                    continue
+                add('nd-%s-step%s-%s' % ('-'.join(kinds), step, 'pos' if position else 'label'), 'slice_nd', 'quick' if step in (None, 'open') or kinds[0] != 'full' else 'thorough', cost=2.5,
+                    shape=[2, 3, 4], kinds=list(kinds), step=step, order='inc' if step != -1 else 'dec', position=position)
+    add('nd-4d-full-slice-list-scalar', 'slice_nd', cost=4, shape=[2, 3, 2, 3], kinds=['full', 'slice', 'list', 'scalar'])
+    add('nd-4d-scalar-list-slice-full', 'slice_nd', cost=4, shape=[3, 2, 3, 2], kinds=['scalar', 'list', 'slice', 'full'], step='open')
     # position slices
     for via in ('ix', 'iloc', 'take'):
         for n in (0, 1, 3):
